@@ -95,6 +95,10 @@ async def sim_run_in_thread(self):
     w = _world()
     d = w.chooser.delay("hash.delay", 0, 30)
     w.count("hash.jobs")
+    if w.chooser.chance("hash.slow", 15):
+        # a big file: hashing takes seconds, longer than any timeout in the director
+        d += w.chooser.delay("hash.slow_ms", 2000, 20000)
+        w.count("fault.slow_hash")
     try:
         await asyncio.sleep(d)
         fault = w.hash_fault_for(self)
